@@ -136,11 +136,44 @@ def reply_swaps_source_and_destination(src: bytes, dst: bytes, content: bytes, r
 
 
 # ------------------------------------------------------------------------- simple verbs
+def fb(tag):
+    return fresh_int(tag, 0, 255)
+
+
+def earlier_messages(name):
+    """other well-formed messages the same (long-lived) handler object may have decoded before; all parameters arbitrary"""
+    table = {
+        "ping": lambda: [b"APING", b"APING\x00"],
+        "version": lambda: [b"AVERS" + bytes([fb("e_seq")]),
+                            b"SVERS" + bytes([fb("e_v1"), fb("e_v2"), fb("e_v3"), fb("e_v4"), fb("e_v5"), fb("e_v6"), fb("e_v7"), fb("e_v8")])],
+        "channel": lambda: [b"CURCH" + bytes([fb("e_seq")]), b"CHCUR" + bytes([fb("e_ch"), fb("e_sig")])],
+        "configfile": lambda: [b"SFILE" + bytes([fb("e_seq")])],
+        "status": lambda: [b"STATU" + bytes([fb("e_seq"), fb("e_s1"), fb("e_s2"), fb("e_l1"), fb("e_l2")]),
+                           b"STATV" + bytes([fb("e_idx"), fb("e_nxt"), 2, fb("e_b1"), fb("e_b2")])],
+        "pack": lambda: [b"SPACK" + bytes([fb("e_seq"), fb("e_pt"), 2, 57, fb("e_key")]),
+                         b"SPACK" + bytes([fb("e_seq2"), fb("e_pt2"), 6, 70, fb("e_c"), fb("e_l"), fb("e_ph"), fb("e_pl"), fb("e_d")]),
+                         b"PACKS"],
+        "watercare": lambda: [b"GETWC" + bytes([fb("e_seq")]), b"REQWC" + bytes([fb("e_seq2")]), b"WCGET" + bytes([fb("e_mode")])],
+        "reminders": lambda: [b"REQRM" + bytes([fb("e_seq")]), b"RMREQ" + bytes([1, fb("e_d1"), fb("e_d2"), 1])],
+        "firmware": lambda: [b"UPDTS" + bytes([fb("e_seq")]), b"SUPDT\x00"],
+        "rferr": lambda: [b"RFERR"],
+    }
+    return table[name]() if name in table else []
+
+
 def check_roundtrip(name, content, peer, want_fields):
     ensures("claimed-by-exactly-its-peer", claimed_by(content) == [name])
     peer.handle(content, SENDER)
     for attr, val in want_fields:
         ensures("decodes-" + attr, getattr(peer, attr) == val)
+    # handler objects are long-lived (simulator, async consumers): what a message decodes to
+    # does not depend on what the same object decoded before
+    for earlier in earlier_messages(name):
+        used = dict(standard_handlers())[name]
+        used.handle(earlier, SENDER)
+        used.handle(content, SENDER)
+        for attr, val in want_fields:
+            ensures("decodes-" + attr + "-whatever-was-decoded-before", getattr(used, attr) == val)
 
 
 @harness(prop="C04", target="geckolib.driver.protocol.ping:GeckoPingProtocolHandler.request")
